@@ -119,6 +119,9 @@ def confirm(report, tag=''):
         route = None
         if 'witness' in vio and vio['witness'] and 'instruction' in vio['witness']:
             route = confirm_op
+        elif vio['key'] == 'flag.dwarf.skipped':
+            from . import natives
+            route = natives.confirm_dwarf_skipped
         elif vio['key'].startswith('dwarf.'):
             from . import natives
             route = natives.confirm_dwarf
